@@ -495,6 +495,57 @@ pub fn gen_cases<G: AffineRepr>(seed: u64, tier: &str, stream: &str, curve_idx: 
                 c.muts = vec![m];
                 out.push(c);
             }
+            // one-constraint circuits from operator trees (C15): constrain(tree - c)
+            "lcprove" => {
+                use crate::comp_lc::{gen_tree, terms_of};
+                let vals: Vec<F<G>> = (0..3).map(|_| edge_scalar::<F<G>>(&mut rng)).collect();
+                let gl: Vec<(F<G>, F<G>)> = (0..3).map(|_| (edge_scalar::<F<G>>(&mut rng), edge_scalar::<F<G>>(&mut rng))).collect();
+                let mut prog: Vec<COp<F<G>>> = vec![];
+                for v in &vals {
+                    prog.push(COp::Commit(*v, F::<G>::rand(&mut rng)));
+                }
+                for (l, r) in &gl {
+                    prog.push(COp::AllocMul(Some((*l, *r))));
+                }
+                let tree = gen_tree::<F<G>>(&mut rng, 1 + k % 4);
+                let w = |v: V| -> F<G> {
+                    match v {
+                        V::Committed(i) => vals[i],
+                        V::Left(i) => gl[i].0,
+                        V::Right(i) => gl[i].1,
+                        V::Out(i) => gl[i].0 * gl[i].1,
+                        V::One => F::<G>::from(1u64),
+                        V::Phantom => F::<G>::zero(),
+                    }
+                };
+                let value = tree.denote(&w);
+                let (delta, tag): (F<G>, &str) = match k % 4 {
+                    0 | 1 => (F::<G>::zero(), "lcprove-equal"),
+                    2 => (F::<G>::from(1u64), "lcprove-off"),
+                    _ => (-F::<G>::from(1u64), "lcprove-off"),
+                };
+                // expr - c with the real operators, then as a term list
+                let real = tree.build() - (value + delta);
+                let toks = terms_of(&real);
+                let mut lcx: Lcx<F<G>> = vec![];
+                for ch in toks.chunks(3) {
+                    let idx: usize = ch[1].parse().unwrap();
+                    let v = match ch[0].as_str() {
+                        "0" => V::Committed(idx),
+                        "1" => V::Left(idx),
+                        "2" => V::Right(idx),
+                        "3" => V::Out(idx),
+                        "4" => V::One,
+                        _ => V::Phantom,
+                    };
+                    use std::str::FromStr;
+                    lcx.push((v, Sx::C(F::<G>::from_str(&ch[2]).ok().unwrap())));
+                }
+                prog.push(COp::Constrain(lcx));
+                let mut c = R1csCase::plain(id, prog, 4, 4, rng.gen());
+                c.tag = tag.to_string();
+                out.push(c);
+            }
             _ => {}
         }
     }
